@@ -758,8 +758,9 @@ impl Exec {
             }
             Ok(InsertResult::PrefixLimitExceeded) => {
                 self.count("limit:exceeded-returned");
-                if let (Some((m, _)), Some(b)) = (&limit, before) {
-                    if b < *m as u64 {
+                if let Some((m, _)) = &limit {
+                    // the session really holds fewer than max prefixes (recount before the call)
+                    if self.snap.by_session(p, sgen, f) < *m as u64 {
                         // not fixed by the statement (it only bounds the other direction)
                         self.count("unjudged:limit-signalled-below-max");
                     }
@@ -1310,8 +1311,8 @@ fn fails_with(cfg: HistCfg, attrs: &[Arc<Vec<Attribute>>], evs: &[Ev], sig: &str
 
 /// ddmin over the event list, then per-event and per-config simplifications,
 /// all while the same signature is still produced.
-fn shrink(cfg: HistCfg, attrs: &[Arc<Vec<Attribute>>], evs: &[Ev], sig: &str) -> (HistCfg, Vec<Ev>) {
-    let mut budget: u32 = 4000;
+fn shrink(cfg: HistCfg, attrs: &[Arc<Vec<Attribute>>], evs: &[Ev], sig: &str, budget: u32) -> (HistCfg, Vec<Ev>) {
+    let mut budget: u32 = budget;
     let mut cur: Vec<Ev> = evs.to_vec();
     let mut cfg = cfg;
     // cut everything after the first occurrence (bisection on the prefix length)
@@ -1461,6 +1462,10 @@ fn shrink(cfg: HistCfg, attrs: &[Arc<Vec<Attribute>>], evs: &[Ev], sig: &str) ->
 
 fn witness(cfg: HistCfg, attrs: &[Arc<Vec<Attribute>>], evs: &[Ev], sig: &str, original_len: usize) -> Json {
     let ex = run_events(cfg, attrs, evs);
+    witness_of(&ex, cfg, evs, sig, original_len)
+}
+
+fn witness_of(ex: &Exec, cfg: HistCfg, evs: &[Ev], sig: &str, original_len: usize) -> Json {
     let f = ex.findings.iter().find(|f| f.sig == sig);
     let upto = f.map(|f| f.step).unwrap_or(ex.trace.len());
     Json::obj(vec![
@@ -1492,6 +1497,8 @@ fn main() {
     };
     let histories = params.get_u64("histories", params.n(5_000, 40_000));
     let nev = params.get_u64("events", 50) as usize;
+    // re-executions the shrinker may spend per new signature (0 under Miri: too slow)
+    let shrink_budget = params.get_u64("shrink", 4000) as u32;
 
     let mut done = 0u64;
     while done < histories && rep.in_budget() {
@@ -1554,8 +1561,12 @@ fn main() {
                 rep.violation(&f.sig, &f.what, Json::Null);
                 continue;
             }
-            let (scfg, sev) = shrink(cfg, &attrs, &evs, &f.sig);
-            let w = witness(scfg, &attrs, &sev, &f.sig, evs.len());
+            let w = if shrink_budget == 0 {
+                witness_of(&ex, cfg, &evs, &f.sig, evs.len())
+            } else {
+                let (scfg, sev) = shrink(cfg, &attrs, &evs, &f.sig, shrink_budget);
+                witness(scfg, &attrs, &sev, &f.sig, evs.len())
+            };
             rep.violation(&f.sig, &f.what, w);
         }
     }
